@@ -28,9 +28,6 @@ theorem single_dd : Single (.alt (.cls "ASCII_DIGIT") (.lit ['.'])) ddB :=
 
 def tbtTok (x : Str) : PTree := .node "truth_budget_term" x []
 
-/-- an entry of a truth or budget: non-empty, digits and dots -/
-def gNumB (x : Str) : Bool := !x.isEmpty && x.all ddB
-
 theorem ev_tbt (x rest : Str) (hx : gNumB x = true) (hr : ∀ c ∈ rest.head?, ddB c = false) :
     Ev RG false (.ref "truth_budget_term") (x ++ rest) (some (rest, [tbtTok x])) := by
   cases x with
@@ -220,9 +217,6 @@ theorem any_char (c : Char) : inRanges [(0, 1114111)] c = true := by
   have h1 : c.toNat ≤ 1114111 := by omega
   simp [h1]
 
-/-- a character inside a stamp: not `:`, not blank (and not `$`, so that a stamp is never taken for a budget) -/
-def stampCh (c : Char) : Bool := !(c == ':') && !wsB c && !(c == '$')
-
 theorem ev_stampStep {c : Char} (s : Str) (hc : stampCh c = true) :
     Ev RG false stampStep (c :: s) (some (s, [])) := by
   simp only [stampCh, Bool.and_eq_true, Bool.not_eq_true', beq_eq_false_iff_ne] at hc
@@ -246,8 +240,6 @@ theorem many_stamp (mid rest : Str) (hm : mid.all stampCh = true) (acc : List PT
     have := Many.step false stampStep (c :: cs ++ ':' :: rest) (c :: cs ++ ':' :: rest) (cs ++ ':' :: rest) [] acc _
       (skip_none false (noWs_cons hws)) (ev_stampStep _ hc) (by simp) (by simpa using ih hm.2)
     exact this
-
-def stampTxt (mid : Str) : Str := ':' :: (mid ++ [':'])
 
 theorem ev_stamp (mid rest : Str) (hne : mid ≠ []) (hm : mid.all stampCh = true) :
     Ev RG false (.ref "stamp") (stampTxt mid ++ rest) (some (rest, [.node "stamp" (stampTxt mid) []])) := by
